@@ -115,6 +115,8 @@ def run(ctx):
                             "distinct_nontrivial": len(sample), "impl_outcomes": {}, "unmodelled": 0, "mismatches": 0, "oracle_violations": 0, "wall_s": 0})
     finally:
         os.rmdir(d1)
+    # the same values after the rest of the package ran in the same process
+    core.history_independence(ctx, "canonical bytes do not depend on what the process did before", [c["w"] for c in cases[:40]] + [c["w"] for c in pcases[:20]])
     # the parser model against json.loads: canonical texts, other valid texts, invalid texts
     texts = ['1', '-0', '01', '1.0', '1.50', '1E5', '-1.5e-3', '[1,]', '{"a":1,}', '{"a":1,"a":2,"b":3,"a":4}', '"\\ud83d\\ude00"', '"\\ud83d"', '"\\ud83d\\u0041"',
              '"\\ude00\\ud83d"', '"\\ud83d\\ud83d\\ude00"', '"\\u+123"', '"\\u12"', '"\\uD83D\\uDE00"', '"a\x1fb"', '"a\x7fb"', '"\\x41"', '"\\/"', 'tru', 'True', 'NaN', '-NaN',
